@@ -118,5 +118,27 @@ package shovel
 
 // C18: goroutines started by load and insert touch captured variables only
 // under a lock.
+// C20/C06: the functional options a task is built with (loadTasks passes the
+// source's settings and the reference's range through them). Each writes
+// exactly the fields it names; concurrency and batch size are independent and
+// a non-positive value keeps the default.
+//@ func WithConcurrency$1 props=C20
+//@   requires t != nil
+//@   ensures [concurrency] t.concurrency == (concurrency > 0 ? concurrency : old(t.concurrency))
+//@   ensures [batch-size] t.batchSize == (batchSize > 0 ? batchSize : old(t.batchSize))
+//@   ensures [frame] t.start == old(t.start) && t.stop == old(t.stop) && t.srcName == old(t.srcName) && t.srcChainID == old(t.srcChainID)
+//@ func WithRange$1 props=C20,C06
+//@   requires t != nil
+//@   ensures [range] t.start == start && t.stop == stop
+//@   ensures [frame] t.concurrency == old(t.concurrency) && t.batchSize == old(t.batchSize) && t.srcName == old(t.srcName) && t.srcChainID == old(t.srcChainID)
+//@ func WithSrcName$1 props=C20,C04
+//@   requires t != nil
+//@   ensures [name] t.srcName == name
+//@   ensures [frame] t.concurrency == old(t.concurrency) && t.batchSize == old(t.batchSize) && t.start == old(t.start) && t.stop == old(t.stop) && t.srcChainID == old(t.srcChainID)
+//@ func WithChainID$1 props=C20,C04
+//@   requires t != nil
+//@   ensures [chain] t.srcChainID == chainID
+//@   ensures [frame] t.concurrency == old(t.concurrency) && t.batchSize == old(t.batchSize) && t.start == old(t.start) && t.stop == old(t.stop) && t.srcName == old(t.srcName)
+
 //@ goroutines (*Task).load props=C18
 //@ goroutines (*Task).insert props=C18
